@@ -41,29 +41,34 @@ def gen_pattern(rng, present=None):
 
 def gen(rng, driver, i):
     sc = treerun.Scn(); sc.driver = driver
-    root_name = rng.choice([b'S', b'build', b'q', b'src', b'a'])     # the root's own name may match a pattern (F16)
-    src = b'/W/' + root_name
-    sc.d(b'/W').d(src)
-    ents = gen_tree(rng, sc, src, rng.randint(1, 3))
-    lines = []
-    present = sorted({p.split(b'/')[-1] for p, _ in ents})
-    for _ in range(rng.choice([0, 1, 1, 2, 3, 4, 5])):
-        r = rng.random()
-        lines.append('' if r < 0.08 else '# comment ' + gen_pattern(rng, present) if r < 0.16 else gen_pattern(rng, present))
-    text = ('\n'.join(lines) + '\n').encode()
+    sc.d(b'/W').d(b'/W/DEST')
+    nsrc = rng.choice([1, 1, 1, 2, 3])
+    root_names = rng.sample([b'S', b'build', b'q', b'src', b'a', b'T2'], nsrc)      # a root's own name may match a pattern (F16)
     use = rng.random() < 0.9
-    has_file = rng.random() < 0.92
-    if has_file:
-        sc.f(src + b'/.gitignore', text=text); ents.append((src + b'/.gitignore', False))
+    sc.gis = []
+    for root_name in root_names:
+        src = b'/W/' + root_name
+        sc.d(src)
+        ents = gen_tree(rng, sc, src, rng.randint(1, 3))
+        lines = []
+        present = sorted({p.split(b'/')[-1] for p, _ in ents})
+        for _ in range(rng.choice([0, 1, 1, 2, 3, 4, 5])):
+            r = rng.random()
+            lines.append('' if r < 0.08 else '# comment ' + gen_pattern(rng, present) if r < 0.16 else gen_pattern(rng, present))
+        text = ('\n'.join(lines) + '\n').encode()
+        has_file = rng.random() < 0.92
+        if has_file:
+            sc.f(src + b'/.gitignore', text=text); ents.append((src + b'/.gitignore', False))
+        sc.gis.append(dict(src=src, ents=ents, text=text if has_file else b'', use=use, name=root_name))
     sc.opts = ['r'] + (['gitignore'] if use else [])
-    sc.paths = [root_name, b'DEST']
-    sc.gi = dict(src=src, ents=ents, text=text if has_file else b'', use=use)
+    sc.paths = root_names + [b'DEST']
+    sc.gi = sc.gis[0]
     return sc
 
 
-def git_excluded(root, sc):
+def git_excluded(root, sc, g=None):
     """git's own answer for every entry (directories given WITHOUT trailing slash: git stats them)"""
-    g = sc.gi
+    g = g or sc.gi
     src_real = root.encode() + g['src']
     gd = root + '/../gitdir'
     subprocess.run(['git', 'init', '-q', '--bare', gd], check=True, env=core.ENV)
@@ -84,13 +89,15 @@ def run(ctx):
     # corpus: the repaired defect F16 (the root directory's own name matched by a pattern)
     c0 = treerun.Scn(); c0.d(b'/W').d(b'/W/build').d(b'/W/build/src').f(b'/W/build/src/a').f(b'/W/build/x.o').f(b'/W/build/.gitignore', text=b'build/\n*.o\n')
     c0.opts = ['r', 'gitignore']; c0.paths = [b'build', b'DEST']
-    c0.gi = dict(src=b'/W/build', ents=[(b'/W/build/src', True), (b'/W/build/src/a', False), (b'/W/build/x.o', False), (b'/W/build/.gitignore', False)], text=b'build/\n*.o\n', use=True)
+    c0.d(b'/W/DEST')
+    c0.gi = dict(name=b'build', src=b'/W/build', ents=[(b'/W/build/src', True), (b'/W/build/src/a', False), (b'/W/build/x.o', False), (b'/W/build/.gitignore', False)], text=b'build/\n*.o\n', use=True)
+    c0.gis = [c0.gi]
     scs = [c0] + [gen(rng, ['parfile', 'parblock'][i % 2], i) for i in range(n)]
     runs = []
     with core.Scratch('c17') as base:
         for i, sc in enumerate(scs):
             o = treerun.run(base, sc)
-            o.git = git_excluded(o.root, sc) if sc.gi['use'] else set()
+            o.git = set().union(*[git_excluded(o.root, sc, g) for g in sc.gis]) if sc.gi['use'] else set()
             runs.append((i, sc, o))
         ans = core.ask(core.MODEL, [o.request for _, _, o in runs])
     for (i, sc, o), a in zip(runs, ans):
@@ -106,9 +113,10 @@ def run(ctx):
         if o.res.cls != '0':
             bad = f'copy with --gitignore failed: {o.res.stderr.strip()[-150:]}'
         else:
-            tb = b'/W/DEST'
-            for p, isdir in g['ents']:
-                d = tb + p[len(g['src']):]
+            for g2 in sc.gis:
+              tb = b'/W/DEST/' + g2['name']
+              for p, isdir in g2['ents']:
+                d = tb + p[len(g2['src']):]
                 copied = d in after
                 excluded = p in o.git
                 if copied and excluded:
